@@ -1,14 +1,14 @@
 CONSTANTS
-  CapStep = 1
-  CapQuery = 1
-  CapBoth = 1
-  CapAgg = 1
-  CapRes = 1
-  Kinds = {"both", "simple", "count", "limit"}
+  CapStep = 2
+  CapQuery = 2
+  CapBoth = 2
+  CapAgg = 2
+  CapRes = 2
+  Kinds = {"both", "simple", "count"}
   MaxStages = 2
-  Ns = {0, 1, 2, 3, 4, 5, 6, 7, 8, 9, 10, 11, 12}
+  Ns = {0, 1, 2, 4, 6, 8, 10, 11, 12, 13, 14, 15, 16, 18, 20}
   Fs = {1, 0, 2, 3}
-  Ks = {99, 0, 1}
+  Ks = {99, 1}
   LimitL = 1
   AggA = 2
   BothDrain = "after"
